@@ -259,7 +259,7 @@ func CutClass(segs []Seg, n int, cuts []int) string {
 		}
 	}
 	add(inPrefix, "prefix")
-	add(atPrefixEnd, "hdr|body")
+	add(atPrefixEnd, "prefixend")
 	add(inPayload, "payload")
 	add(atBoundary, "boundary")
 	add(dup, "emptyframe")
